@@ -37,6 +37,9 @@ CONSTANTS
   MaxDim,      \* maximal axis dimension
   FinalOps,    \* operations that may only be applied as the last step (passes etc.)
   OpLevels,    \* sequence of operation sets, one per program position (<< >>: use OpSet everywhere)
+  EnvDirs,     \* << >> or, per environment e, <<E, a, b>>: e is base environment E with the terminals
+               \* seeded along direction a (variable s) and direction b (variable t); jets variant only
+  NDir,        \* number of directions (spatial dimension, or number of components of the variable)
   ReplMaps,    \* sequence of [src |-> terminal position, sub |-> Seq(env)]: replacement maps (C21):
                \* in environment sub[e] the terminal src has the value its image has in e (0: none)
   MiKinds,     \* subset of {"fixed", "name", "slice"}: entries allowed in the multi-index of a[...]
@@ -353,11 +356,87 @@ DoXCofac(a) == LET x == store[a] IN
   /\ Push(Mk("xcofac", <<a>>, << >>, x.sh, << >>, LAMBDA e, bd, c : CofOf(MatOf(x, e), x.sh[1], c[1], c[2])))
 
 -----------------------------------------------------------------------------
+(* Derivatives.  Only meaningful with the scalar domain spec/jets/CQ.tla, where every terminal is  *)
+(* seeded as f + s d_a f + t d_b f + st d_a d_b f in environment e = <<E, a, b>> (EnvDirs).        *)
+(* By Taylor's theorem the t-coefficient of ANY expression x in environment <<E, a, m>> is its     *)
+(* derivative along direction m, and the st-coefficient is d_a d_m x.  The derivative operators    *)
+(* are defined from that, not from differentiation rules.                                         *)
+
+EnvAt(E, a, b) == CHOOSE e \in Envs : EnvDirs[e] = <<E, a, b>>
+\* d_m x as a series in s (the variable t is used up): value, d_a d_m x; in t: d_b d_m x
+DirDeriv(x, e, bd, c, m) ==
+  LET E == EnvDirs[e][1]  a == EnvDirs[e][2]  b == EnvDirs[e][3]
+      za == At(x, EnvAt(E, a, m), bd, c)          \* x seeded along (a, m)
+      zb == At(x, EnvAt(E, b, m), bd, c)          \* x seeded along (b, m)
+  IN <<za[3], za[4], zb[4], CU[1]>>
+HasDirs == Jets /\ NDir > 0 /\ Len(EnvDirs) = NEnv
+\* grad(x)[..., m] = d_m x
+DoGrad(a) == LET x == store[a] IN
+  /\ HasDirs /\ IsVal(x)
+  /\ Push(Mk("grad", <<a>>, << >>, x.sh \o <<NDir>>, x.fi,
+             LAMBDA e, bd, c : DirDeriv(x, e, bd, SubSeq(c, 1, Len(c) - 1), c[Len(c)])))
+\* nabla_grad(x)[m, ...] = d_m x
+DoNablaGrad(a) == LET x == store[a] IN
+  /\ HasDirs /\ IsVal(x)
+  /\ Push(Mk("nabla_grad", <<a>>, << >>, <<NDir>> \o x.sh, x.fi,
+             LAMBDA e, bd, c : DirDeriv(x, e, bd, Tail(c), c[1])))
+\* div(x) = sum_m d_m x[..., m]  (contraction with the LAST axis)
+DoDivergence(a) == LET x == store[a] IN
+  /\ HasDirs /\ IsVal(x) /\ Rank(x) >= 1 /\ x.sh[Len(x.sh)] = NDir
+  /\ Push(Mk("div", <<a>>, << >>, SubSeq(x.sh, 1, Len(x.sh) - 1), x.fi,
+             LAMBDA e, bd, c : FoldSet(LAMBDA m, acc : CAdd(DirDeriv(x, e, bd, c \o <<m>>, m), acc), C0, 0..(NDir - 1))))
+\* nabla_div(x) = sum_m d_m x[m, ...]  (contraction with the FIRST axis)
+DoNablaDiv(a) == LET x == store[a] IN
+  /\ HasDirs /\ IsVal(x) /\ Rank(x) >= 1 /\ x.sh[1] = NDir
+  /\ Push(Mk("nabla_div", <<a>>, << >>, Tail(x.sh), x.fi,
+             LAMBDA e, bd, c : FoldSet(LAMBDA m, acc : CAdd(DirDeriv(x, e, bd, <<m>> \o c, m), acc), C0, 0..(NDir - 1))))
+\* curl: 3D vector -> vector, 2D vector -> scalar (d_0 x_1 - d_1 x_0), 2D scalar -> vector (d_1 x, -d_0 x)
+DoCurl(a) == LET x == store[a] IN
+  /\ HasDirs /\ IsVal(x) /\ x.fi = << >>
+  /\ \/ NDir = 3 /\ x.sh = <<3>>
+        /\ Push(Mk("curl", <<a>>, << >>, <<3>>, << >>,
+                   LAMBDA e, bd, c : LET p == (c[1] + 1) % 3  q == (c[1] + 2) % 3 IN
+                      CSub(DirDeriv(x, e, bd, <<q>>, p), DirDeriv(x, e, bd, <<p>>, q))))
+     \/ NDir = 2 /\ x.sh = <<2>>
+        /\ Push(Mk("curl", <<a>>, << >>, << >>, << >>,
+                   LAMBDA e, bd, c : CSub(DirDeriv(x, e, bd, <<1>>, 0), DirDeriv(x, e, bd, <<0>>, 1))))
+     \/ NDir = 2 /\ x.sh = << >>
+        /\ Push(Mk("curl", <<a>>, << >>, <<2>>, << >>,
+                   LAMBDA e, bd, c : IF c[1] = 0 THEN DirDeriv(x, e, bd, << >>, 1) ELSE CNeg(DirDeriv(x, e, bd, << >>, 0))))
+\* x.dx(m) = d_m x
+DoDx(a, m) == LET x == store[a] IN
+  /\ HasDirs /\ IsVal(x)
+  /\ Push(Mk("dx", <<a>>, <<m>>, x.sh, x.fi, LAMBDA e, bd, c : DirDeriv(x, e, bd, c, m)))
+\* Gateaux derivatives: the harness seeds the coefficient w1 as w1 + s v1 and w2 as w2 + t v2;
+\* derivative(x, w1, v1) is the s-coefficient, derivative(x, w2, v2) the t-coefficient.
+DoGateaux(k, a) == LET x == store[a] IN
+  /\ Jets /\ IsVal(x)
+  /\ Push(Mk(IF k = 1 THEN "gateaux1" ELSE "gateaux2", <<a>>, << >>, x.sh, x.fi,
+             LAMBDA e, bd, c : IF k = 1 THEN CSelS(At(x, e, bd, c)) ELSE CSelT(At(x, e, bd, c))))
+\* variable(e) whose VALUE is the differentiation variable: component number a of it is seeded
+\* with s and component number b with t (directions = flattened components of the variable)
+FlatPos(sh, c) == LET RECURSIVE Go(_, _)
+                      Go(k, acc) == IF k > Len(sh) THEN acc ELSE Go(k + 1, acc * sh[k] + c[k])
+                  IN Go(1, 0)
+DoSeedVariable(a) == LET x == store[a] IN
+  /\ HasDirs /\ IsVal(x) /\ x.fi = << >> /\ \A n \in Ids : store[n].op # "seedvar"
+  /\ Cardinality(Tup(x.sh)) = NDir
+  /\ Push(Mk("seedvar", <<a>>, << >>, x.sh, << >>,
+             LAMBDA e, bd, c : CSeed(At(x, e, bd, c),
+                                     IF FlatPos(x.sh, c) = EnvDirs[e][2] THEN C1[1] ELSE C0[1],
+                                     IF FlatPos(x.sh, c) = EnvDirs[e][3] THEN C1[1] ELSE C0[1])))
+\* diff(f, v)[cf, cv] = derivative of f with respect to component cv of the value of the variable v
+DoDiff(a, v) == LET x == store[a]  y == store[v] IN
+  /\ HasDirs /\ IsVal(x) /\ y.op = "seedvar"
+  /\ Push(Mk("diff", <<a, v>>, << >>, x.sh \o y.sh, x.fi,
+             LAMBDA e, bd, c : DirDeriv(x, e, bd, SubSeq(c, 1, Rank(x)), FlatPos(y.sh, SubSeq(c, Rank(x) + 1, Len(c))))))
+
+-----------------------------------------------------------------------------
 (* Conditions and conditionals (conditional.py).  A condition is a node with IsBool; its    *)
 (* value is 1 / 0, undefined when an operand is undefined or (for <, >, <=, >=) not real.   *)
 
 CmpVal(op, z, w) ==
-  IF op \in {"eq", "ne"} THEN (IF CDef(z) /\ CDef(w) THEN CBool((z = w) = (op = "eq")) ELSE CU)
+  IF op \in {"eq", "ne"} THEN (IF CDef(z) /\ CDef(w) THEN CBool(CSame(z, w) = (op = "eq")) ELSE CU)
   ELSE IF ~CCmpDef(z, w) THEN CU
   ELSE CBool(CASE op = "lt" -> CLt(z, w) [] op = "gt" -> CLt(w, z)
                [] op = "le" -> ~CLt(w, z) [] op = "ge" -> ~CLt(z, w))
@@ -421,7 +500,7 @@ IdxSeqs == UNION {[1..r -> {IdxPool[k] : k \in 1..Len(IdxPool)}] : r \in 1..MaxR
 \* (the last entry repeats), or OpSet when no levels are given
 CurOps == IF Len(OpLevels) = 0 THEN OpSet
           ELSE LET k == Len(store) - NInit + 1 IN OpLevels[IF k <= Len(OpLevels) THEN k ELSE Len(OpLevels)]
-PassOps == {"lower", "expand_indices", "remove_ct", "renumber", "expand_derivatives", "strip_variables",
+PassOps == {"lower", "expand_indices", "remove_ct", "renumber", "expand_derivatives", "apply_derivatives", "strip_variables",
             "remove_complex", "point_eval", "identity"} \cap CurOps
 
 Next ==
@@ -445,6 +524,16 @@ Next ==
        \/ "sym" \in CurOps /\ DoSym(a)
        \/ "not" \in CurOps /\ DoNot(a)
        \/ "variable" \in CurOps /\ DoVariable(a)
+       \/ "grad" \in CurOps /\ DoGrad(a)
+       \/ "nabla_grad" \in CurOps /\ DoNablaGrad(a)
+       \/ "div" \in CurOps /\ DoDivergence(a)
+       \/ "nabla_div" \in CurOps /\ DoNablaDiv(a)
+       \/ "curl" \in CurOps /\ DoCurl(a)
+       \/ "dx" \in CurOps /\ \E m \in 0..(NDir - 1) : DoDx(a, m)
+       \/ "gateaux1" \in CurOps /\ DoGateaux(1, a)
+       \/ "gateaux2" \in CurOps /\ DoGateaux(2, a)
+       \/ "seedvar" \in CurOps /\ DoSeedVariable(a)
+       \/ "diff" \in CurOps /\ \E v \in Ids : DoDiff(a, v)
        \/ "replace" \in CurOps /\ \E p \in 1..Len(ReplMaps) : DoReplace(a, p)
        \/ "xdet" \in CurOps /\ DoXDet(a)
        \/ "xinv" \in CurOps /\ DoXInv(a)
